@@ -330,6 +330,11 @@ inline json reader_dump(const std::string& bytes, int moved_after = -1) {
             while (true) { GenericAddressEventCount g = blk.read_generic_aec(end); if (end) break; aecs.push_back(aec_out(g)); }
             while (true) { GenericMalformedMessage g = blk.read_generic_mm(end); if (end) break; mms.push_back(mm_out(g)); }
             b["qrs"] = qrs; b["aecs"] = aecs; b["mms"] = mms;
+            {   // what the block renders as (string() of the block and of its preamble): a digest in three small numbers
+                uint64_t hsh = 1469598103934665603ULL;
+                for (unsigned char c : blk.string() + blk.m_block_preamble.string()) { hsh ^= c; hsh *= 1099511628211ULL; }
+                b["str"] = json::array({hsh & 0xFFFFFF, (hsh >> 24) & 0xFFFFFF, (hsh >> 48) & 0xFFFF});
+            }
             blocks.push_back(b);
         }
         out["fin"] = "eof";
@@ -403,6 +408,11 @@ struct ReaderSession {
             while (true) { GenericAddressEventCount g = blk.read_generic_aec(end); if (end) break; aecs.push_back(aec_out(g)); }
             while (true) { GenericMalformedMessage g = blk.read_generic_mm(end); if (end) break; mms.push_back(mm_out(g)); }
             b["qrs"] = qrs; b["aecs"] = aecs; b["mms"] = mms;
+            {   // what the block renders as (string() of the block and of its preamble): a digest in three small numbers
+                uint64_t hsh = 1469598103934665603ULL;
+                for (unsigned char c : blk.string() + blk.m_block_preamble.string()) { hsh ^= c; hsh *= 1099511628211ULL; }
+                b["str"] = json::array({hsh & 0xFFFFFF, (hsh >> 24) & 0xFFFFFF, (hsh >> 48) & 0xFFFF});
+            }
             blocks.push_back(b);
             return true;
         }
